@@ -219,6 +219,41 @@ theorem ms_encode_alloc_ret (l : MsLayout) (hl : MsLayoutOk l) (fs fsz : Nat)
     rw [h3 hv, hv]
     rfl
 
+/-- The same over C10's `MsEncode.encodeNative` itself (explicit bit-rate or OPUS_BITRATE_MAX), any stream count / rate /
+    frame size. -/
+theorem ms_encode_native_ret (n : Nat) (hn : 1 ≤ n) (fs fsz : Nat) (vbr : Bool) (bitrate : Option Int) (maxData : Int)
+    (enc : Nat → Int → Res Bytes) (hc : EncContract fs fsz enc) (ht : EncTotal enc)
+    (hlive : EncLive (decide (fs / fsz = 10)) enc) :
+    (maxData < smallestPacket n (decide (fs / fsz = 10)) →
+      MsEncode.encodeNative n fs fsz vbr bitrate maxData enc = .err .bufferTooSmall) ∧
+    (smallestPacket n (decide (fs / fsz = 10)) ≤ maxData →
+      ∃ out, MsEncode.encodeNative n fs fsz vbr bitrate maxData enc = .ok out ∧ 1 ≤ out.length ∧
+        (out.length : Int) ≤ maxData ∧
+        (vbr = false → (out.length : Int) = cbrClamp n (decide (fs / fsz = 10)) vbr fs fsz bitrate maxData) ∧
+        ∃ ps : List Packet, ps.length = n ∧ (∀ p ∈ ps, Valid p) ∧ (∀ p ∈ ps, duration fs p = fsz) ∧
+          out = LayoutSpec.msSerialize ps) := by
+  unfold MsEncode.encodeNative
+  dsimp only
+  constructor
+  · intro h; rw [if_pos h]
+  · intro h
+    rw [if_neg (by omega)]
+    have hle := cbrClamp_le n (decide (fs / fsz = 10)) vbr fs fsz bitrate maxData
+    have hge : smallestPacket n (decide (fs / fsz = 10)) ≤ cbrClamp n (decide (fs / fsz = 10)) vbr fs fsz bitrate maxData := by
+      unfold cbrClamp
+      split
+      · exact h
+      · split
+        · exact h
+        · omega
+    rw [fs100_eq] at hlive hge ⊢
+    rw [smallest_eq] at hge
+    obtain ⟨out, ho, h1, h2, h3, hps⟩ := ms_loop_ret n hn fs fsz fs fsz vbr _ enc hc ht hlive hge
+    rw [fs100_eq] at hle
+    rw [← fs100_eq] at h2 h3
+    rw [fs100_eq] at h2 h3
+    exact ⟨out, ho, h1, by omega, h3, hps⟩
+
 /-! ### … with the single-stream encoder skeleton in every stream -/
 
 /-- The encoder skeleton of C02/C05 succeeds on every legal budget (`ret_le_out`): C10's `skelEnc` is live. -/
